@@ -209,6 +209,14 @@ fn dispatch<P: Property>(p: &P, a: &Args) -> i32 {
 }
 
 fn main() {
+    // a panic of the simulator's own code is a harness error (exit 2), never a verdict
+    let r = std::panic::catch_unwind(real_main);
+    if r.is_err() {
+        harness_error(&format!("the simulator itself panicked: {}", entropy::last_panic_text()));
+    }
+}
+
+fn real_main() {
     let a = parse_args();
     silence_sut_output();
     entropy::install_panic_hook();
